@@ -692,6 +692,30 @@ func (h *histState) opMutateCaller() {
 	h.observe("MutateCallerData", true)
 }
 
+// opOtherSimulator creates (and briefly runs) an unrelated simulator with a
+// different core size in the middle of the history: instances must not share
+// anything, whatever the order in which they are created.
+func (h *histState) opOtherSimulator() {
+	other := h.cfg.gi
+	if h.tp.Draw("other.bigger", 2) == 0 {
+		other.CoreSize = h.cfg.gi.CoreSize*2 + 5
+	} else {
+		other.CoreSize = gi.Address(max(3, int(h.cfg.gi.CoreSize)/2))
+	}
+	other.ReadLimit, other.WriteLimit, other.Length, other.Distance = other.CoreSize, other.CoreSize, other.CoreSize, 0
+	h.log("NewSimulator(other, M=%d)", other.CoreSize)
+	safeCall(400000, func() {
+		if sm, err := gi.NewSimulator(other); err == nil {
+			d := gi.WarriorData{Code: []gi.Instruction{{Op: gi.MOV, OpMode: gi.I, AMode: gi.DIRECT, BMode: gi.DIRECT, B: 1}}}
+			sm.AddWarrior(&d)
+			sm.SpawnWarrior(0, 0)
+			sm.RunCycle()
+		}
+	})
+	h.res.stat("probe.unrelated-simulator-created-mid-history", 1)
+	h.observe("NewSimulator(other)", true)
+}
+
 func newHist(res *Result, tp *simrt.Tape, cfg battleCfg, prop string) *histState {
 	h := &histState{res: res, tp: tp, cfg: cfg, prop: prop}
 	box, err, f := newBox(cfg.gi)
@@ -757,6 +781,9 @@ func caseHistory(t *testing.T, tp *simrt.Tape, c *Ctx) (res Result) {
 			if len(h.data) < 4 {
 				h.opAdd()
 			}
+		}
+		if tp.Draw("hist.othersim", 16) == 0 && !h.dead {
+			h.opOtherSimulator()
 		}
 	}
 	if !h.dead && tp.Draw("hist.twin", 3) == 0 {
